@@ -30,7 +30,7 @@ def _hash_files(paths, extra=b""):
     h = hashlib.sha256(extra)
     for p in paths:
         with open(p, "rb") as f:
-            h.update(p.encode() + b"\0" + f.read())
+            h.update(os.path.basename(p).encode() + b"\0" + f.read())
     return h.hexdigest()[:20]
 
 
@@ -112,7 +112,9 @@ def ref_decoder():
         outp = ctypes.POINTER(ctypes.c_int16)()
         n = lib.mlw_decode(bytes(data), len(data), ctypes.byref(outp), 0)
         if n < 0:
-            raise ValueError("reference decoder failed")
+            if outp:
+                libc.free(outp)
+            raise ValueError("reference decoder: stream underrun / malformed stream")
         arr = np.ctypeslib.as_array(outp, shape=(n,)).astype(np.int64).copy() if n else np.zeros(0, np.int64)
         libc.free(outp)
         return arr
@@ -129,3 +131,29 @@ def setup_all():
 if __name__ == "__main__":
     setup_all()
     print("ok")
+
+
+def build_fuzzer(ndebug):
+    """libFuzzer + ASan + UBSan target: repository encoder + pinned decoder + csrc/fuzz_mlw.c"""
+    d = codec_dir()
+    srcs = [os.path.join(d, "mlw_encode.c"), os.path.join(VERIF, "csrc", "fuzz_mlw.c"), os.path.join(VERIF, "vendor", "mlw_decode.c")]
+    hdrs = sorted(os.path.join(d, f) for f in os.listdir(d) if f.endswith(".h"))
+    tag = _hash_files(srcs + hdrs, b"fuzz-ndebug" if ndebug else b"fuzz-debug")
+    out = os.path.join(BUILD, "fuzz-%s" % tag)
+    if os.path.exists(out):
+        return out
+    os.makedirs(BUILD, exist_ok=True)
+    tmpdir = out + ".d%d" % os.getpid()
+    os.makedirs(tmpdir, exist_ok=True)
+    common = ["clang", "-g", "-O1", "-fsanitize=fuzzer-no-link,address,undefined", "-fno-sanitize-recover=undefined", "-fno-omit-frame-pointer"]
+    if ndebug:
+        common.append("-DNDEBUG")
+    _run(common + ["-I", d, "-c", srcs[0], "-o", os.path.join(tmpdir, "enc.o")])
+    _run(common + ["-I", d, "-c", srcs[1], "-o", os.path.join(tmpdir, "fz.o")])
+    _run(["clang", "-g", "-O1", "-Dmlw_decode=ref_mlw_decode", "-I", os.path.join(VERIF, "vendor"), "-c", srcs[2], "-o", os.path.join(tmpdir, "dec.o")])
+    _run(["clang", "-fsanitize=fuzzer,address,undefined", os.path.join(tmpdir, "enc.o"), os.path.join(tmpdir, "fz.o"), os.path.join(tmpdir, "dec.o"), "-o", out + ".tmp", "-lm"])
+    os.replace(out + ".tmp", out)
+    import shutil
+
+    shutil.rmtree(tmpdir, ignore_errors=True)
+    return out
